@@ -4,7 +4,10 @@ use mc_core::{Report, Tier};
 use std::time::Duration;
 
 mod common;
+mod engines;
 mod c03;
+mod c05;
+mod c06;
 
 static HOOKS: rzmq::verif::sched::Hooks = rzmq::verif::sched::Hooks {
   point: mc_core::e2::hook_point,
@@ -53,6 +56,8 @@ fn main() {
       mc_core::world::start_watchdog(total, format!("{} {}", prop, tier.name()));
       let report: Report = match prop.as_str() {
         "C03" => c03::run(tier),
+        "C05" => c05::run(tier),
+        "C06" => c06::run(tier),
         _ => {
           eprintln!("no check registered for {}", prop);
           std::process::exit(2);
@@ -72,6 +77,8 @@ fn main() {
       let sub = v["sub"].as_str().unwrap_or("").to_string();
       let res = match prop.as_str() {
         "C03" => c03::replay(&sub, &v["witness"]),
+        "C05" => c05::replay(&sub, &v["witness"]),
+        "C06" => c06::replay(&sub, &v["witness"]),
         _ => Err(format!("no replay registered for {}", prop)),
       };
       match res {
